@@ -104,6 +104,10 @@ class DictProxy(dict):
         super().__setitem__(key, value)
 
     def _ref_path(self, key: str) -> str:
+        cfg_path = getattr(self.cfg, "_ref_path", None)
+        if cfg_path:
+            # the owning configuration knows where it lives (list item index included)
+            return "%s.%s[%s]" % (cfg_path, self.dict_field._key, key)
         return "%s[%s]" % (self.dict_field._ref_path, key)
 
     def _validate(self, key: Any, value: Any) -> Tuple[Any, Any]:
